@@ -168,3 +168,59 @@ package store
 //@   modifies heap, completeSeen
 //@   set completeSeen = ite(result == s.rdbSize, 1, 0) after call Load
 //@   assert at call Rename: only_a_completely_received_snapshot_is_published: completeSeen == 1
+
+// ---- lock discipline of the storer's data-set lock (C05): a function that holds ----------------
+// ---- Storer.dataSetMux exclusively never calls anything that acquires it again (sync.RWMutex ---
+// ---- is not re-entrant: the call would never return and no reader would be handed out) ---------
+//   dsMuxHeld  1 while the current goroutine holds Storer.dataSetMux exclusively
+//@ func Storer.getDataSet
+//@   arith int
+//@   properties C05
+//@   ghost var dsMuxHeld mathint
+//@   requires data_set_lock_not_held_by_the_caller: dsMuxHeld == 0
+//@   modifies nothing
+//@   ensures current: result == s.dataSet
+//@ func Storer.findAof
+//@   arith int
+//@   properties C05
+//@   requires data_set_lock_not_held_by_the_caller: dsMuxHeld == 0
+//@   requires nonnil: s != nil && s.dataSet != nil
+//@   modifies heap
+//@ func Storer.hasWriter
+//@   arith int
+//@   properties C05
+//@   requires data_set_lock_not_held_by_the_caller: dsMuxHeld == 0
+//@   requires nonnil: s != nil && s.dataSet != nil
+//@   modifies heap
+//@ func aofStorer.hasWriter(self, left) (r)
+//@   trusted interface of the storer towards its readers: implemented by Storer.hasWriter, which takes the data-set lock
+//@   requires data_set_lock_not_held_by_the_caller: dsMuxHeld == 0
+//@ func AofRotateReader.isCorrupted
+//@   trusted (array slicing outside the subset; by reading: its first statement is r.aof.hasWriter(r.left), then file reads)
+//@   requires data_set_lock_not_held_by_the_caller: dsMuxHeld == 0
+//@ func Observer.Open(self, args) ()
+//@   trusted frame: bookkeeping callback, does not touch the reader's configuration
+//@ func pkg/sync.NewWaitCloser(f) (r)
+//@   trusted frame: allocates a wait object
+//@ func AofRotateReader.openFile
+//@   arith int
+//@   properties C05 C08
+//@   requires checksum_check_needs_the_data_set_lock_free: r.verifyCrc ==> dsMuxHeld == 0
+//@   requires nonnil: r != nil
+//@   modifies heap
+//@ func NewAofRotateReader
+//@   arith int
+//@   properties C05 C08
+//@   requires checksum_check_needs_the_data_set_lock_free: verifyCrc ==> dsMuxHeld == 0
+//@   requires nonnil: aof != nil
+//@   modifies heap
+
+//@ func Storer.GetReader
+//@   arith int
+//@   properties C05
+//@   replay store_verifyCrc
+//@   requires nonnil: s != nil && s.dataSet != nil
+//@   requires not_locked: dsMuxHeld == 0
+//@   requires index_well_formed: segsWF(s.dataSet) && contiguous(s.dataSet) && rdbAnchored(s.dataSet) && nonNegative(s.dataSet)
+//@   modifies heap, dsMuxHeld
+//@   set dsMuxHeld = 1 at call Lock optional
